@@ -128,6 +128,36 @@ def exArgvVSame : List Word := ["prog".toList, "-p".toList, "3".toList, "-q".toL
 def exArgvVDiff : List Word := ["prog".toList, "-p".toList, "3".toList, "-q".toList, "-b".toList, "4".toList]
 
 theorem exArgv_plain : ArgvPlain exArgvOk ∧ ArgvPlain exArgvRequires ∧ ArgvPlain exArgvStale := by
-  unfold ArgvPlain; decide
+  decide
+
+/-- list values: `-m 1,2,3 -x -y --name=a,b -m4,-5` (commas in a value word, in the value attached to a
+    long key, in the value attached to a short key) -/
+def exArgvList : List Word :=
+  ["prog".toList, "-m".toList, "1,2,3".toList, "-x".toList, "-y".toList, "--name=a,b".toList, "-m4,-5".toList]
+
+theorem exArgvList_plain : ArgvPlain exArgvList := by decide
+
+/-- the comma-in-key witness is outside `ArgvPlain`, and so is the inversion word -/
+theorem exArgv_not_plain : ¬ ArgvPlain ["p".toList, "--x,lll".toList] ∧ ¬ ArgvPlain ["p".toList, "-x".toList, "!".toList] ∧
+    ¬ ArgvPlain ["p".toList, "-a-x,lll".toList] := by decide
+
+/-! ### members and cursors for the dispatch examples -/
+
+/-- member 0 of `exCfg` (`-x`, `-y`) in its initial state -/
+def exM0 : Cfg × HState := (memberCfg exCfg exArgMember exGlobMember 0,
+  (memberCfg exCfg exArgMember exGlobMember 0).initState (memberInits exInits exArgMember 0))
+/-- member 1 of `exCfg` (`-m` multi-value, `--name`) in its initial state -/
+def exM1 : Cfg × HState := (memberCfg exCfg exArgMember exGlobMember 1,
+  (memberCfg exCfg exArgMember exGlobMember 1).initState (memberInits exInits exArgMember 1))
+/-- member 1 after it handled `-m` (its argument 0) -/
+def exM1m : Cfg × HState := (exM1.1, { exM1.2 with lastArg := some 0 })
+
+/-- the cursor on the key element `-y` of `p -y` (what `It.begin` returns) -/
+def exItKey : It :=
+  { argv := ["p".toList, "-y".toList], argIndex := 2, charPos := 0, cur := Elem.setArgChar 1 1 'y', curLen := 2 }
+/-- the cursor on the free value `2,3` of `p -m 1 2,3` -/
+def exItVal : It :=
+  { argv := ["p".toList, "-m".toList, "1".toList, "2,3".toList], argIndex := 4, charPos := 0,
+    cur := Elem.setValue 3 "2,3".toList, curLen := 3 }
 
 end CelmaVerif.ProgArgs
